@@ -1554,23 +1554,25 @@ theorem receive_cases {W : World} {ver : Nat} {s : State} {seen : List Ref} {ski
     exact Or.inl ⟨hfull, rfl⟩
   · rw [if_neg (fun hh => hfull ((indexedVal_iff W s.rows h.r2 b).mp hh))]
     cases hfm : firstMissing W s.src b with
-    | some m => exact Or.inr (Or.inl ⟨m, hfull, rfl, rfl⟩)
+    | some m => exact Or.inr (Or.inl ⟨m, hfull, (by first | rfl | trivial), rfl⟩)
     | none =>
       simp only
       cases hdep : idep W b with
       | none =>
         simp only
-        exact Or.inr (Or.inr (Or.inr ⟨hfull, rfl, fun t ht => by cases ht, rfl⟩))
+        exact Or.inr (Or.inr (Or.inr ⟨hfull, (by first | rfl | trivial), (fun t ht => by cases ht), rfl⟩))
       | some t =>
         simp only
         rw [metaType_eq W s h.r2 hc t]
         by_cases hta : stOf W s.rows t = .absent
         · rw [if_pos hta]
-          exact Or.inr (Or.inr (Or.inl ⟨t, hfull, rfl, rfl, hta, fun e => hW.2 b (by rw [hdep, e]), rfl⟩))
+          exact Or.inr (Or.inr (Or.inl ⟨t, hfull, (by first | rfl | trivial), (by first | rfl | trivial), hta,
+            (fun e => hW.2 b (by rw [hdep, e])), rfl⟩))
         · rw [if_neg hta]
           simp only
           rw [fullRowsAt_eq W b t hdep]
-          exact Or.inr (Or.inr (Or.inr ⟨hfull, rfl, fun t' ht' => by cases ht'; exact hta, rfl⟩))
+          exact Or.inr (Or.inr (Or.inr ⟨hfull, (by first | rfl | trivial),
+            (fun t' ht' => by cases ht'; exact hta), rfl⟩))
 
 theorem noteNeeded_J3 (s : State) (hj : J3 s) (b t : Ref) : J3 (s.noteNeeded b t) := by
   intro x y
@@ -1602,10 +1604,10 @@ theorem commit_shape (s s0 : State) (b : Ref) (mm : List Row) (r : Bool) (hk0 : 
     unfold State.commitAll
     rw [(nbi_fields _ b).2.2]
     unfold State.corpusAdd
-    show (match (s0.commit mm).corpus with | none => _ | some c => _).corpus = _
     have : (s0.commit mm).corpus = s.corpus := hcorp
-    rw [this]
-    cases s.corpus <;> rfl
+    split
+    · rename_i heq; rw [← this, heq]; rfl
+    · rename_i c heq; rw [← this, heq]; rfl
   have hdeletes : (s0.commitAll b mm r).deletes = s.deletes ++ delsOfMM mm := by
     unfold State.commitAll
     rw [(nbi_fields _ b).2.1, (corpusAdd_fields _ b mm r).2.2.2.2.2]
